@@ -61,6 +61,10 @@ if [ "$ID" = "C16" ] || [ "$ID" = "c16" ]; then
       echo "INCONCLUSIVE property=$ID reason=profile-$prof-build-failed"; grep -E "^error" -A 12 "$LOG" | head -40; rm -f "$LOG"; exit 2
     fi
   done
+  # the same harness against the library built WITHOUT its optional `utils` feature
+  if ! cargo build --quiet --profile fast --no-default-features --target-dir "$VERIF_TARGET/noutils" "${CARGO_EXTRA[@]}" >"$LOG" 2>&1; then
+    echo "INCONCLUSIVE property=$ID reason=no-utils-build-failed"; grep -E "^error" -A 12 "$LOG" | head -40; rm -f "$LOG"; exit 2
+  fi
   TLOG="$VERIF_TARGET/c16-traits.log"
   if (cd c16_traits && cargo check --quiet --target-dir "$VERIF_TARGET/c16" "${CARGO_EXTRA[@]}" >"$TLOG" 2>&1); then
     export C16_TRAITS=ok
